@@ -347,6 +347,8 @@ def eval3(e: ast.AST, val: Callable[[ast.AST], Optional[bool]]):
             return None
         eq = x == e.comparators[0].value
         return eq if isinstance(e.ops[0], (ast.Eq, ast.Is)) else (not eq)
+    if isinstance(e, ast.Call) and isinstance(e.func, ast.Name) and e.func.id == "bool" and len(e.args) == 1 and not e.keywords:
+        return eval3(e.args[0], val)
     if isinstance(e, ast.IfExp):
         t = eval3(e.test, val)
         if t is True:
